@@ -94,7 +94,7 @@ func c04shape(s string) string {
 var c04ops = []string{"Open", "OpenFile", "Create", "Mkdir", "MkdirAll", "Remove", "RemoveAll", "Stat", "Lstat", "LstatOrStat", "Chmod", "Chown", "Chtimes", "ReadDir", "ReadFile", "WriteFullFile", "Sub",
 	"Rename:1", "Rename:2", "Rename:both", "Symlink:1", "Symlink:2", "Symlink:both"}
 
-var c04subjects = []string{"mem", "kvplain", "mount", "sub", "sub-os", "cache", "tar", "os", "tar-broken", "mount-nested", "sub-mount"}
+var c04subjects = []string{"mem", "kvplain", "mount", "sub", "sub-os", "cache", "tar", "os", "tar-broken", "mount-nested", "sub-mount", "sub-dot"}
 
 // c04parts are the constituent file systems whose state must not change.
 type c04subject struct {
@@ -165,6 +165,16 @@ func newC04Subject(env *core.Env, name string, populatedState bool) (*c04subject
 			s.fs = v
 		}
 		return s, nil
+	case "sub-dot":
+		// a view of "." (legal, and what code that takes "a directory" gets for the top)
+		parent, _ := mem.NewFS()
+		v, err := hackpadfs.Sub(parent, ".")
+		if err != nil {
+			return nil, err
+		}
+		s.fs = v
+		s.parts["parent"] = parent
+		return s, buildTree(v, items)
 	case "sub":
 		parent, _ := mem.NewFS()
 		if err := hackpadfs.MkdirAll(parent, "top/in", 0o755); err != nil {
@@ -342,7 +352,12 @@ func c04run(env *core.Env, idx int) core.CaseResult {
 	res.Nontrivial = true
 	sub, err := newC04Subject(env, cs.Subject, cs.Populated)
 	if err != nil {
-		res.Inconclusive = "setup " + cs.Subject + ": " + err.Error()
+		if cs.Subject == "os" || cs.Subject == "sub-os" {
+			res.Inconclusive = "setup " + cs.Subject + ": " + err.Error() // could be the environment (scratch directory)
+		} else {
+			// building the start tree uses valid names only and in-memory parts only: a failure is the library refusing them
+			res.Violate("C04|"+cs.Subject+"|setup|got=fail,want=ok", fmt.Sprintf("the start tree (valid names only) cannot be built through %s: %v", cs.Subject, err), cs)
+		}
 		return res
 	}
 	defer sub.cleanup()
